@@ -80,17 +80,17 @@ obligation!(logical_op__xor, {
     lexes!(LogicalOp, "xor x", 3, LogicalOp::Xor);
 });
 
-obligation!(logical_op__caret_caret, {
+obligation_leak!(logical_op__caret_caret, {
     lexes!(LogicalOp, "^^", 2, LogicalOp::Xor);
     lexes!(LogicalOp, "^^ x", 2, LogicalOp::Xor);
 });
 
-obligation!(logical_op__and, {
+obligation_leak!(logical_op__and, {
     lexes!(LogicalOp, "and", 3, LogicalOp::And);
     lexes!(LogicalOp, "and x", 3, LogicalOp::And);
 });
 
-obligation!(logical_op__amp_amp, {
+obligation_leak!(logical_op__amp_amp, {
     lexes!(LogicalOp, "&&", 2, LogicalOp::And);
     lexes!(LogicalOp, "&& x", 2, LogicalOp::And);
 });
